@@ -229,6 +229,11 @@ def hazards(d):
         with_('ratelimit:number=%s:period=%s' % ('0' if num == 0 else ('max' if num >= 2 ** 63 else 'n'), 'zero' if ref_period(per) == 0 else ('overflow' if (ref_period(per) or 0) > U64 else ('huge' if (ref_period(per) or 0) >= 2 ** 62 else 'small'))),
               'rate limit %s per %s' % (num, per), rate_limit=[{'name': 'r', 'number': C.Raw(str(num)), 'period': per}],
               endpoint=[dict(b['endpoint'][0], rate_limits=['r'])])
+    # numbers around the 32-bit boundaries (a narrowing conversion somewhere on the way would turn them into 0 or into small numbers)
+    for num in (2 ** 16, 2 ** 31, 2 ** 32 - 1, 2 ** 32, 2 ** 32 + 1, 3 * 2 ** 32, 2 ** 33, 2 ** 40, 2 ** 48 + 2 ** 32, 2 ** 63 - 1):
+        for per in ('10s', '2s'):
+            with_('ratelimit:number=2^%d%s:period=small' % (num.bit_length() - 1, '' if num & (num - 1) == 0 else '+'), 'rate limit %s per %s' % (num, per),
+                  rate_limit=[{'name': 'r', 'number': C.Raw(str(num)), 'period': per}], endpoint=[dict(b['endpoint'][0], rate_limits=['r'])])
     with_('ratelimit:several-with-zero', 'two limits, one with number 0', rate_limit=[{'name': 'r', 'number': 5, 'period': '2s'}, {'name': 'z', 'number': 0, 'period': '3s'}],
           endpoint=[dict(b['endpoint'][0], rate_limits=['r', 'z'])])
     # durations in settings
@@ -308,6 +313,15 @@ def text_cases(d, r):
     out.append({'label': 'text:deep-nesting', 'detail': 'deeply nested arrays', 'text': 'include = ' + '[' * 5000 + ']' * 5000 + '\n'})
     out.append({'label': 'text:deep-inline', 'detail': 'deeply nested inline tables', 'text': 'a = ' + '{ a = ' * 3000 + '1' + ' }' * 3000 + '\n'})
     out.append({'label': 'text:huge-array', 'detail': 'include with 50000 missing files', 'text': 'include = [' + ', '.join('"nope%d.toml"' % i for i in range(50000)) + ']\n'})
+    # rejected configurations whose offending line is long and not ASCII (the error message quotes it): every alignment of the
+    # multi-byte characters with respect to any byte offset the message might be cut at
+    for ch in ('\u00e9', '\u6f22', '\U0001f600'):
+        for pad in range(4):
+            long_txt = 'x' * pad + ch * 300
+            out.append({'label': 'text:long-line-syntax', 'detail': 'syntax error on a %d-byte line of %r (pad %d)' % (len(long_txt.encode()), ch, pad),
+                        'text': good + '\nnote = "%s" junk\n' % long_txt})
+            out.append({'label': 'text:long-line-type', 'detail': 'type error on a %d-byte line of %r (pad %d)' % (len(long_txt.encode()), ch, pad),
+                        'text': good.replace('[[account]]\n', '[[account]]\nenv = { NOTE = "%s", RETRIES = 3 }\n' % long_txt, 1)})
     out.append({'label': 'text:big-integer', 'detail': 'integer beyond 64 bits', 'text': good.replace('tos_agreed = true', 'tos_agreed = 123456789012345678901234567890')})
     return out
 
